@@ -78,7 +78,7 @@ theorem computeLocalFrame_eq_spec (tmin : α) (sqrt : α → α) (p xDir normal 
   obtain ⟨nx, ny, nz⟩ := normal
   simp only [Gen.Frame.computeLocalFrame, computeLocalFrameSpec, nrmIP, cross, frameM44]
   generalize Gen.V3.length tmin sqrt = len
-  split_ifs <;> first | rfl | simp_all
+  tree_eq
 
 /-- `xDir ≠ 0`, `normal ∦ xDir`: orthonormal right-handed frame at `p`, x-axis along `xDir`, y-axis ⟂ `normal`;
 and the z-axis is along `normal` when `normal ⟂ xDir` (documented) -/
@@ -121,6 +121,122 @@ theorem computeLocalFrameSpec_frame {len : V3 α → α} (hlen : LenSpec len) (p
       cross_cross_self normal xDir
     rw [hcc, hperp, ← len_sq hlen xDir]
     apply V3.ext' <;> simp only [smul, vsub] <;> field_simp <;> ring
+
+/-! ### firstFrame -/
+
+theorem sabs_eq_abs (x : α) : sabs x = |x| := by
+  unfold sabs
+  split_ifs with h
+  · rw [abs_of_pos h]
+  · rw [abs_of_nonpos (not_lt.mp h)]
+
+/-- the coordinate direction chosen by `firstFrame` when the three points are collinear: the axis along which the
+tangent has its smallest component -/
+def ffAxis (t : V3 α) : V3 α :=
+  if sabs t.x < sabs t.y then (if sabs t.z < sabs t.x then ⟨0, 0, 1⟩ else ⟨1, 0, 0⟩)
+  else (if sabs t.z < sabs t.y then ⟨0, 0, 1⟩ else ⟨0, 1, 0⟩)
+
+def firstFrameSpec (len : V3 α → α) (pi pj pk : V3 α) : Except Exc (M44 α) :=
+  let d := vsub pj pi
+  if len d = 0 then .error Exc.domainError
+  else
+    let t : V3 α := ⟨d.x / len d, d.y / len d, d.z / len d⟩
+    let n0 := nrmIP len (cross t (vsub pk pi))
+    let n := if len n0 = 0 then nrmIP len (cross t (ffAxis t)) else n0
+    .ok (frameM44 t n (cross t n) pi)
+
+theorem firstFrame_eq_spec (tmin : α) (sqrt : α → α) (pi pj pk : V3 α) :
+    Gen.Frame.firstFrame tmin sqrt pi pj pk = firstFrameSpec (Gen.V3.length tmin sqrt) pi pj pk := by
+  obtain ⟨ix, iy, iz⟩ := pi
+  obtain ⟨jx, jy, jz⟩ := pj
+  obtain ⟨kx, ky, kz⟩ := pk
+  simp only [Gen.Frame.firstFrame, firstFrameSpec, nrmIP, ffAxis, cross, vsub, frameM44]
+  generalize Gen.V3.length tmin sqrt = len
+  simp only [mul_zero, zero_mul, mul_one, one_mul, sub_zero, zero_sub, sub_self, zero_div]
+  tree_eq
+
+/-- frame with unit tangent `t`, unit normal `n ⟂ t`, binormal `t × n` -/
+theorem isRot_tnb {t n : V3 α} (ht : dot t t = 1) (hn : dot n n = 1) (htn : dot t n = 0) :
+    IsRot (rows3 t n (cross t n)) := isRot_rows3 ht hn htn rfl
+
+/-- non-collinear points: tangent along `pj − pi`, normal ⟂ tangent in the plane normal direction `t × (pk − pi)`,
+binormal `t × n`, origin `pi` -/
+theorem firstFrameSpec_main {len : V3 α → α} (hlen : LenSpec len) {pi pj pk : V3 α}
+    (hd : vsub pj pi ≠ ⟨0, 0, 0⟩) (hc : cross (vsub pj pi) (vsub pk pi) ≠ ⟨0, 0, 0⟩) :
+    ∃ M, firstFrameSpec len pi pj pk = .ok M ∧ IsFrame M ∧ row3 M = pi ∧ row0 M = nrm len (vsub pj pi) ∧
+      row1 M = nrm len (cross (vsub pj pi) (vsub pk pi)) ∧ row2 M = cross (row0 M) (row1 M) := by
+  have hld := len_ne_zero hlen hd
+  have hpd := len_pos hlen hd
+  have ht : (⟨(vsub pj pi).x / len (vsub pj pi), (vsub pj pi).y / len (vsub pj pi), (vsub pj pi).z / len (vsub pj pi)⟩ : V3 α)
+      = nrm len (vsub pj pi) := (nrm_of_ne hld).symm
+  have hut := nrm_unit hlen hld
+  have hw : cross (nrm len (vsub pj pi)) (vsub pk pi) = smul (len (vsub pj pi))⁻¹ (cross (vsub pj pi) (vsub pk pi)) := by
+    rw [nrm_eq_smul hld, cross_smul_left]
+  have hn : nrm len (cross (nrm len (vsub pj pi)) (vsub pk pi)) = nrm len (cross (vsub pj pi) (vsub pk pi)) := by
+    rw [hw]; exact nrm_smul_pos hlen (inv_pos.mpr hpd) hc
+  have hlc := len_ne_zero hlen hc
+  have hun := nrm_unit hlen hlc
+  have hl1 : len (nrm len (cross (vsub pj pi) (vsub pk pi))) ≠ 0 := by
+    rw [len_eq_one hlen hun]; exact one_ne_zero
+  have htn : dot (nrm len (vsub pj pi)) (nrm len (cross (vsub pj pi) (vsub pk pi))) = 0 := by
+    rw [nrm_eq_smul hld, nrm_eq_smul hlc, dot_smul_smul, dot_left_cross, mul_zero]
+  refine ⟨frameM44 (nrm len (vsub pj pi)) (nrm len (cross (vsub pj pi) (vsub pk pi)))
+      (cross (nrm len (vsub pj pi)) (nrm len (cross (vsub pj pi) (vsub pk pi)))) pi, ?_, ?_, rfl, rfl, rfl, rfl⟩
+  · simp only [firstFrameSpec, if_neg hld, ht, nrmIP_eq_nrm hlen, hn, if_neg hl1]
+  · refine ⟨?_, isAffine_frameM44 _ _ _ _⟩
+    rw [rot3_frameM44]; exact isRot_tnb hut hun htn
+
+/-- the fallback axis is never parallel to a unit tangent -/
+theorem cross_ffAxis_ne_zero {t : V3 α} (ht : dot t t = 1) : cross t (ffAxis t) ≠ ⟨0, 0, 0⟩ := by
+  obtain ⟨x, y, z⟩ := t
+  simp only [dot] at ht
+  unfold ffAxis
+  simp only [sabs_eq_abs]
+  split_ifs with h1 h2 h3
+  · -- ẑ, |x| < |y|
+    have : y ≠ 0 := by intro h; rw [h, abs_zero] at h1; exact absurd h1 (not_lt.mpr (abs_nonneg x))
+    simp [cross, this]
+  · -- x̂, |x| < |y|
+    have : y ≠ 0 := by intro h; rw [h, abs_zero] at h1; exact absurd h1 (not_lt.mpr (abs_nonneg x))
+    simp [cross, this]
+  · -- ẑ, |z| < |y|
+    have : y ≠ 0 := by intro h; rw [h, abs_zero] at h3; exact absurd h3 (not_lt.mpr (abs_nonneg z))
+    simp [cross, this]
+  · -- ŷ: |y| ≤ |x| and |y| ≤ |z|; if x = z = 0 then y = 0, contradicting |t| = 1
+    simp only [cross, ne_eq, V3.mk.injEq, mul_zero, mul_one, sub_zero, zero_sub, neg_eq_zero, sub_self, not_and]
+    intro hz _ hx
+    have hy : y = 0 := by
+      have := not_lt.mp h1
+      rw [hx, abs_zero] at this
+      exact abs_eq_zero.mp (le_antisymm this (abs_nonneg y))
+    rw [hx, hy, hz] at ht
+    norm_num at ht
+
+/-- collinear points (documented: "an arbitrary twist value will be chosen"): still an orthonormal right-handed frame
+at `pi` with the tangent along `pj − pi` -/
+theorem firstFrameSpec_collinear {len : V3 α → α} (hlen : LenSpec len) {pi pj pk : V3 α}
+    (hd : vsub pj pi ≠ ⟨0, 0, 0⟩) (hc : cross (vsub pj pi) (vsub pk pi) = ⟨0, 0, 0⟩) :
+    ∃ M, firstFrameSpec len pi pj pk = .ok M ∧ IsFrame M ∧ row3 M = pi ∧ row0 M = nrm len (vsub pj pi) ∧
+      row1 M = nrm len (cross (nrm len (vsub pj pi)) (ffAxis (nrm len (vsub pj pi)))) ∧ row2 M = cross (row0 M) (row1 M) := by
+  have hld := len_ne_zero hlen hd
+  have ht : (⟨(vsub pj pi).x / len (vsub pj pi), (vsub pj pi).y / len (vsub pj pi), (vsub pj pi).z / len (vsub pj pi)⟩ : V3 α)
+      = nrm len (vsub pj pi) := (nrm_of_ne hld).symm
+  have hut := nrm_unit hlen hld
+  have h0 : len (⟨0, 0, 0⟩ : V3 α) = 0 := (len_eq_zero_iff hlen _).mpr rfl
+  have hw : cross (nrm len (vsub pj pi)) (vsub pk pi) = ⟨0, 0, 0⟩ := by
+    rw [nrm_eq_smul hld, cross_smul_left, hc]; simp [smul]
+  have hn0 : nrm len (⟨0, 0, 0⟩ : V3 α) = ⟨0, 0, 0⟩ := by simp [nrm, h0]
+  have hf := cross_ffAxis_ne_zero hut
+  have hlf := len_ne_zero hlen hf
+  have hun := nrm_unit hlen hlf
+  have htn : dot (nrm len (vsub pj pi)) (nrm len (cross (nrm len (vsub pj pi)) (ffAxis (nrm len (vsub pj pi))))) = 0 := by
+    rw [nrm_eq_smul hlf, dot_smul_right, dot_left_cross, mul_zero]
+  refine ⟨frameM44 (nrm len (vsub pj pi)) (nrm len (cross (nrm len (vsub pj pi)) (ffAxis (nrm len (vsub pj pi)))))
+      (cross (nrm len (vsub pj pi)) (nrm len (cross (nrm len (vsub pj pi)) (ffAxis (nrm len (vsub pj pi)))))) pi,
+      ?_, ?_, rfl, rfl, rfl, rfl⟩
+  · simp only [firstFrameSpec, if_neg hld, ht, nrmIP_eq_nrm hlen, hw, hn0, h0, if_true]
+  · refine ⟨?_, isAffine_frameM44 _ _ _ _⟩
+    rw [rot3_frameM44]; exact isRot_tnb hut hun htn
 
 end More
 end ImathVerif.C09
